@@ -3,7 +3,7 @@
 One Spec (spec/immutable/Download.tla, contract in DownloadContract.tla, adversary bounds in MCDownload.tla),
 one driver of the real downloader (harness/download_driver.py), one trace spec (TraceDownload.tla).  Each
 property selects its MC configurations, its driver profile and the verdict clauses that belong to it."""
-import json
+import json, os
 
 GENERIC = ("harness_duplicate_read", "harness_unknown_read", "harness_unresolved_mismatch", "unknown_event")
 
@@ -37,6 +37,8 @@ def cfg(readers=1, numsegs=2, inst="P_spread3", order="Order3", full=True, clear
 
 def mc_holds(ctx, name, **kw):
     """A configuration in which every property of the Spec must hold (violations are findings)."""
+    if os.environ.get("DL_SKIP_MC"):      # development aid (mutant trials): conformance part only
+        return None
     txt, shown = cfg(**kw)
     ctx.constants[name] = shown
     return ctx.mc("immutable/MCDownload", txt, name=name, timeout=3000)
@@ -46,6 +48,8 @@ def mc_demo(ctx, name, expect, **kw):
     """A deliberately weakened configuration (the code-shaped rule for _active_segment, or a validation switched
     off): TLC must find the named violation, otherwise the model does not exercise that mechanism."""
     from vfw.core import MachineryError
+    if os.environ.get("DL_SKIP_MC"):
+        return None
     txt, shown = cfg(**kw)
     ctx.constants[name] = shown
     r = ctx.mc("immutable/MCDownload", txt, name=name, expect_ok=False, timeout=3000)
